@@ -1,5 +1,5 @@
 """C09: check configuration (PROP) and MANIFEST texts (TEXT)."""
-PROP = {'n_quick': 120,
+PROP = {'n_quick': 90,
  'n_thorough': 600,
  'audit': 3,
  'audit_maxlen': 9000,
